@@ -218,6 +218,19 @@ def run(rep, tier, rng):
             cases.append(Case("p%d" % k, "run", "%s %s" % (env, pdl), None,
                               {"features": {"jets": 1}, "expect": expect, "probe": name}))
             k += 1
+    # guard templates of the C05 family (core_common.guard_after_write_programs / guard_after_copy_programs) closed to
+    # 1 -> 1 by `comp _ unit`: a write or copy primitive that spills over the end of its frame flips an assertion that runs
+    # afterwards; the verdict is known by construction (every fourth program asserts one wrong bit)
+    from props import core_common as core_cc
+    r6 = rng.fork("guards")
+    for j, (nodes, wrong) in enumerate(core_cc.guard_after_write_programs(r6, quick, True) + core_cc.guard_after_copy_programs(r6, quick, True)):
+        nodes = list(nodes)
+        nodes.append(("unit",))
+        nodes.append(("comp", len(nodes) - 2, len(nodes) - 1))
+        p = pg.compact_prog(nodes)
+        cases.append(Case("g%d" % k, "run", "%s %s" % (cc.rand_env(r6), pg.prog_pdl(p)), None,
+                          {"features": cc.prog_features(p), "expect": 1 if wrong else 0, "probe": "guard-after-write"}))
+        k += 1
     lap("generation_s")
     # three-way population: programs over the Elements namesakes of the Core jets specified in Jets/JetSpec.v (plus words,
     # witnesses, assertions, disconnect); the verdict of Core/Sem.v eval is computed in Coq for every one of them
